@@ -104,3 +104,17 @@ def run(v, prop, tier, seed, exhaustive=None):
            "failures_owned_elsewhere": sorted(set(s for _, s, _ in out.failures if owner_of(s) != prop)),
            "exhaustive": tlc}
     return cov, scen
+
+
+def replay(prop, path, doc):
+    """`bin/check --replay` of a replay file written for engine system2 (doc = the parsed file)."""
+    scen = os.path.join(vlib.sub("scn"), "one.ndjson")
+    with open(scen, "w") as f:
+        f.write(json.dumps(doc["scenario"]) + "\n")
+    out = vlib.replay("system2", scen, nshards=1, timeout=300)
+    if out.errors:
+        raise vlib.Inconclusive(str(out.errors))
+    if out.failures or out.crashes or out.timeouts:
+        print("VIOLATION property=%s replay=%s" % (prop, path))
+        return 1
+    return 0
